@@ -112,6 +112,27 @@ def c01_cases(rng, tier):
         base = g.render(t)
         variants = [base, g.render(t, extra=0.3), ['('] + base + [')']]
         cases.append({'decl': decl, 'exprs': [' '.join(v) for v in variants], 'tree': repr(t)[:300], 'kind': ty})
+    # unparenthesised chains of operators of one level (left associativity) and of adjacent levels (the ladder)
+    scal = ['০', '১', '২', '৩', '৮', '৪', 'সত্য', 'মিথ্যা', '"a"', '""', 'সং', 'বু', 'শব', 'শূন', 'তা', 'তা২', 'খালি']
+    levels = [['|'], ['&'], ['==', '!='], ['<', '<=', '>', '>='], ['+', '-'], ['*', '/', '%']]
+    for _ in range(n // 2):
+        k = rng.randint(3, 5)
+        mode = rng.random()
+        if mode < 0.5:
+            lv = rng.randrange(len(levels))
+            ops = [rng.choice(levels[lv]) for _ in range(k - 1)]
+        else:
+            ops = [rng.choice(rng.choice(levels)) for _ in range(k - 1)]
+        if all(o in '+-*/%' for o in ops): pool = ['১', '২', '৩', '৮', '৪', '১০', '০.৫', 'সং', 'ঋণ']
+        elif all(o in '|&' for o in ops): pool = ['সত্য', 'মিথ্যা', 'বু']
+        elif all(o in ('==', '!=') for o in ops): pool = ['সত্য', 'মিথ্যা', '১', '২', '"a"', 'বু', 'সং', 'শূন', 'তা', 'তা২']
+        else: pool = scal
+        toks = []
+        for i in range(k):
+            toks.append(rng.choice(pool))
+            if i < k - 1: toks.append(ops[i])
+        e = ' '.join(toks)
+        cases.append({'decl': decl, 'exprs': [e, '(' + e + ')'], 'tree': e, 'kind': 'chain'})
     return cases
 
 
@@ -236,6 +257,19 @@ def c03_cases(rng, tier):
         ctx = rng.choice(['top', 'top', 'func', 'block', 'chain'])
         pre = rng.choice(HISTORIES)
         cases.append({'src': prog(pre + wrap_context(body, ctx) + tail), 'kind': 'loops ctx=%s' % ctx})
+    for _ in range(n // 3):
+        lim = rng.randint(2, 4)
+        body = ['ফাং ঘোর(ক) {', '    নাম বাইরে = ১০০;', '    নাম ই = ০;', '    লুপ {', '        যদি ই >= %s {' % bn(lim), '            থামাও;', '        }', '        ই = ই + ১;',
+                '        _দেখাও বাইরে;', '        নাম বাইরে = ই;', '        যদি ই %s %s {' % (rng.choice(['==', '>', '<']), bn(rng.randint(1, 3))), '            নাম গভীর = ই * ২;',
+                '            %s' % rng.choice(['আবার;', 'থামাও;', '_দেখাও গভীর;']), '        }', '        নাম পরে = ই + ক;', '        _দেখাও পরে;', '    } আবার;', '    দেখাও বাইরে;', '    ফেরত ই;', '} ফেরত;']
+        calls = []
+        for _ in range(rng.randint(2, 4)):
+            c = ['দেখাও ঘোর(%s);' % bn(rng.randint(1, 9))]
+            for _ in range(rng.randint(0, 3)):
+                c = rng.choice([['যদি সত্য {'] + ind(c) + ['}'], ['{'] + ind(c) + ['}'], ['যদি মিথ্যা {', '} অথবা {'] + ind(c) + ['}']])
+            calls += c
+            if rng.random() < 0.5: calls.append('দেখাও গভীর;' if rng.random() < 0.3 else 'দেখাও "মাঝে";')
+        cases.append({'src': prog(body + calls + ['দেখাও "শেষ";']), 'kind': 'loops function-depths'})
     # stray break / continue
     for s in [['থামাও;'], ['আবার;'], ['ফাং ফ() {', '    থামাও;', '} ফেরত;', 'লুপ {', '    ফ();', '    থামাও;', '} আবার;'],
               ['ফাং ফ() {', '    আবার;', '} ফেরত;', 'নাম ক = ০;', 'লুপ {', '    ক = ক + ১;', '    যদি ক > ২ {', '        থামাও;', '    }', '    ফ();', '} আবার;']]:
@@ -250,7 +284,7 @@ def c05_cases(rng, tier):
         ar = rng.randint(0, 4)
         params = ['প' + bn(i + 1) for i in range(ar)]
         # body: return from a random nesting
-        ret_expr = rng.choice(['প১' if ar else '০', '(প১ + ১)' if ar else '১', '"s"', '[প১]' if ar else '[]', ''])
+        ret_expr = rng.choice(['প১' if ar else '০', '(প১ + ১)' if ar else '১', '"s"', '[%s]' % ', '.join(params), '[%s]' % ', '.join(params), ''])
         nest = rng.randint(0, 3)
         body = ['নাম স্থানীয় = ১০০;']
         if ar: body.append('প১ = প১;')
@@ -265,10 +299,10 @@ def c05_cases(rng, tier):
         if rng.random() < 0.3: inner = ['যদি প১ == ৪২ {' if ar else 'যদি মিথ্যা {'] + ind(inner) + ['}']
         fdef = ['ফাং ফ(%s) {' % ', '.join(params)] + ind(body + inner) + ['} ফেরত;']
         nargs = rng.choice([ar, ar, ar, max(0, ar - 1), ar + 1, 0])
-        args = [rng.choice(['১', '২', 'গ', 'স্থানীয়', '"x"', '[১]', 'প১']) for _ in range(nargs)]
+        args = [rng.choice(['১', '২', 'গ', 'স্থানীয়', '"x"', '[১]', 'প১', 'প১', 'প২', 'প১ + ১']) for _ in range(nargs)]
         call = 'ফ(%s)' % ', '.join(args)
         site = rng.choice(['stmt', 'operand', 'arg', 'cond', 'ret', 'loop', 'chain', 'decl', 'index'])
-        pre = ['নাম গ = ৫;', 'নাম স্থানীয় = ৭;', 'নাম প১ = ৩;']
+        pre = ['নাম গ = ৫;', 'নাম স্থানীয় = ৭;', 'নাম প১ = ৩;', 'নাম প২ = ৪;']
         if site == 'stmt': use = [call + ';']
         elif site == 'operand': use = ['দেখাও [%s, %s];' % (call, call)]
         elif site == 'arg': use = ['দেখাও _টাইপ(%s);' % call]
@@ -278,7 +312,7 @@ def c05_cases(rng, tier):
         elif site == 'chain': use = ['যদি সত্য {', '    দেখাও _টাইপ(%s);' % call, '} অথবা {', '    দেখাও "ভুল";', '}']
         elif site == 'decl': use = ['নাম ফল = %s;' % call, 'দেখাও _টাইপ(ফল);']
         else: use = ['নাম তা = [১, ২, ৩];', 'দেখাও তা[_লিস্ট-লেন([%s]) - ১];' % call]
-        post = ['দেখাও গ;', 'দেখাও স্থানীয়;', 'দেখাও প১;']
+        post = ['দেখাও গ;', 'দেখাও স্থানীয়;', 'দেখাও প১;', 'দেখাও প২;']
         cases.append({'src': prog(pre + fdef + use + post), 'kind': 'call arity=%d args=%d site=%s nest=%d' % (ar, nargs, site, nest)})
     # recursion
     for d in ([5, 50, 200] if tier != 'thorough' else [5, 50, 200, 400]):
@@ -323,6 +357,12 @@ def c04_cases(rng, tier):
                         lines.append('    ' * (depth + 1) + 'যদি %s >= ২ {' % v); lines.append('    ' * (depth + 2) + 'থামাও;'); lines.append('    ' * (depth + 1) + '}')
                         lines.append('    ' * (depth + 1) + '%s = %s + ১;' % (v, v))
                         block(depth + 1, budget)
+                        if rng.random() < 0.5:
+                            lines.append('    ' * (depth + 1) + 'যদি %s == ১ {' % v)
+                            lines.append('    ' * (depth + 2) + 'নাম %s = %s;' % (rng.choice(names), bn(val[0] + 500)))
+                            lines.append('    ' * (depth + 2) + rng.choice(['আবার;', 'আবার;', 'থামাও;']))
+                            lines.append('    ' * (depth + 1) + '}')
+                            block(depth + 1, budget)
                         lines.append('    ' * depth + '} আবার;')
                     else:
                         f = 'ফ' + bn(val[0])
@@ -410,17 +450,17 @@ def c17_cases(rng, tier):
                 pairs.append((s, sep))
         for _ in range(300): pairs.append((rs(rng.randint(0, 8)), rs(rng.randint(0, 3))))
     for s, sep in pairs:
-        cases.append({'src': prog(['নাম ভাগ = _স্ট্রিং-স্প্লিট("%s", "%s");' % (s, sep), 'দেখাও ভাগ;', 'দেখাও _লিস্ট-লেন(ভাগ);', 'দেখাও _স্ট্রিং-জয়েন(ভাগ, "%s");' % sep]),
+        cases.append({'src': prog(['নাম ভাগ = _স্ট্রিং-স্প্লিট("%s", "%s");' % (s, sep), 'দেখাও ভাগ;', 'দেখাও _লিস্ট-লেন(ভাগ);', 'দেখাও _স্ট্রিং-জয়েন(ভাগ, "%s");' % sep]),
                       'kind': 'split', 's': s, 'sep': sep})
     lists = [['a', ''], ['', ''], ['x'], ['', 'a', ''], ['ab', 'ba'], ['a', 'b', 'c'], ['']] + [[rs(rng.randint(0, 3)) for _ in range(rng.randint(1, 4))] for _ in range(100 if tier != 'thorough' else 1000)]
     for l in lists:
         for sep in [',', '-', 'aa', 'ab', '', 'ক']:
             lit = '[' + ', '.join('"%s"' % x for x in l) + ']'
-            cases.append({'src': prog(['নাম জোড়া = _স্ট্রিং-জয়েন(%s, "%s");' % (lit, sep), 'দেখাও জোড়া;', 'দেখাও _স্ট্রিং-স্প্লিট(জোড়া, "%s");' % sep]),
+            cases.append({'src': prog(['নাম জোড়া = _স্ট্রিং-জয়েন(%s, "%s");' % (lit, sep), 'দেখাও জোড়া;', 'দেখাও _স্ট্রিং-স্প্লিট(জোড়া, "%s");' % sep]),
                           'kind': 'join', 'list': l, 'sep': sep})
     for e in ['১', '"a"', 'সত্য', '[১]', '@{}', 'শূ', 'ফ', '_টাইপ(১)']:
         cases.append({'src': prog(['নাম শূ;', 'ফাং ফ() {', '} ফেরত;', 'দেখাও _টাইপ(%s);' % e]), 'kind': 'type'})
-    for bad in ['_টাইপ()', '_টাইপ(১, ২)', '_স্ট্রিং-স্প্লিট("a")', '_স্ট্রিং-স্প্লিট("a", ১)', '_স্ট্রিং-স্প্লিট(১, "a")', '_স্ট্রিং-জয়েন(["a"])', '_স্ট্রিং-জয়েন(["a", ১], ",")', '_স্ট্রিং-জয়েন("a", ",")', '_স্ট্রিং-জয়েন(["a"], ১)', '_স্ট্রিং-স্প্লিট("a", "b", "c")']:
+    for bad in ['_টাইপ()', '_টাইপ(১, ২)', '_স্ট্রিং-স্প্লিট("a")', '_স্ট্রিং-স্প্লিট("a", ১)', '_স্ট্রিং-স্প্লিট(১, "a")', '_স্ট্রিং-জয়েন(["a"])', '_স্ট্রিং-জয়েন(["a", ১], ",")', '_স্ট্রিং-জয়েন("a", ",")', '_স্ট্রিং-জয়েন(["a"], ১)', '_স্ট্রিং-স্প্লিট("a", "b", "c")']:
         cases.append({'src': prog(['দেখাও "আগে";', 'দেখাও %s;' % bad, 'দেখাও "পরে";']), 'kind': 'badargs'})
     return cases
 
@@ -493,6 +533,20 @@ def c13_cases(rng, tier):
             cases.append({'src': main, 'files': [('mods/lib.pakhi', mod)], 'kind': 'fault %s shape=%s depth=%d module' % (fk, shape, depth)})
         else:
             cases.append({'src': prog(pre + body + tail), 'kind': 'fault %s shape=%s depth=%d' % (fk, shape, depth)})
+    for nb in ['১', '"a"', 'তা', 'শূ', 'রে', '১ + ১', '_টাইপ(১)']:
+        for depth in (0, 1, 2):
+            for inmod in (False, True):
+                for form in (0, 1, 2):
+                    if form == 0: st = ['যদি %s' % nb, '', '{', '    দেখাও "ভিতরে";', '}']
+                    elif form == 1: st = ['যদি মিথ্যা {', '} অথবা যদি %s' % nb, '{', '    দেখাও "ভিতরে";', '}']
+                    else: st = ['যদি', '    %s {' % nb, '    দেখাও "ভিতরে";', '}']
+                    body = st
+                    for d in range(depth):
+                        body = ['ফাং স্তর%s() {' % bn(d)] + ind(['দেখাও "স্তর%s";' % bn(d)] + body) + ['} ফেরত;', 'স্তর%s();' % bn(d)]
+                    if inmod:
+                        cases.append({'src': prog(['দেখাও "মূল";', 'মডিউল ম = "mods/lib.pakhi";']), 'files': [('mods/lib.pakhi', prog(pre + body + ['দেখাও "পরে";']))], 'kind': 'fault nonbool-cond module'})
+                    else:
+                        cases.append({'src': prog(pre + body + ['দেখাও "পরে";']), 'kind': 'fault nonbool-cond'})
     # structural faults
     for s in [['}'], ['যদি মিথ্যা {'], ['অথবা {', '}'], ['ফাং ফ() {'], ['ফাং ফ()', 'দেখাও ১;'], ['লুপ {', '}'], ['ফেরত ১;'], ['ফাং', 'দেখাও ১;'], ['যদি মিথ্যা', 'দেখাও ১;']]:
         cases.append({'src': prog(['দেখাও "আগে";'] + s + ['দেখাও "পরে";']), 'kind': 'structural'})
@@ -520,6 +574,18 @@ def c07_programs(rng, tier):
             else: lines.append('রাখা = [রাখা[০], রাখা[১]];')
         lines.append('দেখাও রাখা; দেখাও রেকর্ড["নিজে"]; দেখাও _লিস্ট-লেন(চক্র);')
         cases.append({'src': prog(lines), 'kind': 'gc-program'})
+    big = ['ফাং বড়(ন) {', '    নাম ই = ০;', '    লুপ {', '        যদি ই >= ন {', '            থামাও;', '        }', '        ই = ই + ১;',
+           '        নাম আবর্জনা = [' + ', '.join(['ই'] * 60) + '];', '        নাম আবর্জনা২ = @{"a" -> [ই],};', '    } আবার;', '    ফেরত [ন];', '} ফেরত;',
+           'ফাং জোড়া(ক, খ) {', '    ফেরত [ক, খ];', '} ফেরত;']
+    for _ in range(n // 4 + 2):
+        lines = list(big)
+        lines.append('নাম ধরা = [[৭, ৮], @{"k" -> [৯],}];')
+        for _ in range(rng.randint(1, 4)):
+            N = bn(rng.choice([3, 20, 40]))
+            lines.append(rng.choice(['দেখাও [[১, ২], বড়(%s)];' % N, 'দেখাও জোড়া([৩, ৪] + [৫], বড়(%s));' % N, 'দেখাও @{"a" -> [১], "b" -> বড়(%s),}["a"];' % N,
+                                     'নাম ফল%s = [[১, ২], বড়(%s), @{"x" -> [৩],}];' % (N, N), 'দেখাও জোড়া(@{"r" -> [১, ২],}, বড়(%s))[০]["r"];' % N, 'বড়(%s);' % N]))
+            lines.append('দেখাও ধরা;')
+        cases.append({'src': prog(lines), 'kind': 'gc-midexpr', 'budget': 20000})
     return cases
 
 
@@ -532,10 +598,16 @@ def c08_programs(rng, tier):
         'nested': 'নাম ট = [[ই], @{"k" -> [ই],}];', 'mixed': 'নাম ট = [ই] + _স্ট্রিং-স্প্লিট("x y", " "); নাম ঠ = @{"a" -> ট,};',
         'index-write': 'রাখা[০] = ই;', 'cycle': 'নাম ট = [ই]; ট[০] = ট;', 'reccycle': 'নাম ট = @{"a" -> ১,}; ট["a"] = ট;',
     }
+    preludes = {'': [],
+                'after-records-': ['নাম পূ = ০;', 'লুপ {', '    যদি পূ >= ৭০০ {', '        থামাও;', '    }', '    পূ = পূ + ১;', '    নাম পূর = @{"a" -> পূ,};', '} আবার;'],
+                'after-lists-': ['নাম পূ = ০;', 'লুপ {', '    যদি পূ >= ৭০০ {', '        থামাও;', '    }', '    পূ = পূ + ১;', '    নাম পূর = [পূ];', '} আবার;']}
     for name, body in bodies.items():
+      for pname, pre in preludes.items():
+        if pname and name not in ('one', 'empty-rec', 'concat', 'split', 'nested'): continue
         for N in Ns:
-            src = prog(['নাম রাখা = [০];', 'নাম ই = ০;', 'লুপ {', '    যদি ই >= %s {' % bn(N), '        থামাও;', '    }', '    ই = ই + ১;', '    ' + body, '} আবার;', 'দেখাও ই;'])
-            cases.append({'src': src, 'kind': 'alloc-loop %s' % name, 'route': name, 'N': N, 'budget': 40 * N + 1000})
+            name2 = pname + name
+            src = prog(pre + ['নাম রাখা = [০];', 'নাম ই = ০;', 'লুপ {', '    যদি ই >= %s {' % bn(N), '        থামাও;', '    }', '    ই = ই + ১;', '    ' + body, '} আবার;', 'দেখাও ই;'])
+            cases.append({'src': src, 'kind': 'alloc-loop %s' % name2, 'route': name2, 'N': N, 'budget': 40 * N + 30000})
     return cases
 
 
@@ -603,23 +675,27 @@ def c14_cases(rng, tier):
         # definitions: globals and functions, possibly colliding names across files
         nm = rng.randint(1, 3)
         mods = []
+        datafiles = [('app/root.txt', 'মূল তথ্য')]
+        dirof = lambda p: 'app/' + (p.rsplit('/', 1)[0] + '/' if '/' in p else '')
         main_lines = ['নাম মান = ১;', 'ফাং দেখ() {', '    ফেরত "মূল";', '} ফেরত;']
         aliases = rng.sample(['ক', 'খ', 'গণিত', 'মান'], nm)
         paths = rng.sample(['a.pakhi', 'lib/b.pakhi', 'lib/deep/c.pakhi', 'x/মডিউল.pakhi'], nm)
         for i in range(nm):
             body = ['নাম মান = %s;' % bn((i + 2) * 10), 'নাম তালিকা = [মান];', 'ফাং দেখ() {', '    ফেরত "মড%s" + _স্ট্রিং(মান);' % bn(i), '} ফেরত;',
                     'ফাং বাড়াও() {', '    মান = মান + ১;', '    _লিস্ট-পুশ(তালিকা, মান);', '    ফেরত দেখ();', '} ফেরত;', 'দেখাও "লোড %s";' % bn(i), 'দেখাও _টাইপ(_প্ল্যাটফর্ম);', 'দেখাও _লিস্ট-লেন(তালিকা);']
-            if rng.random() < 0.5: body.append('দেখাও _ডাইরেক্টরি == _ডাইরেক্টরি;')
+            if rng.random() < 0.7:
+                body.append('দেখাও _রিড-ফাইল(_ডাইরেক্টরি + "data%s.txt");' % bn(i))
+                datafiles.append((dirof(paths[i]) + 'data%s.txt' % bn(i), 'তথ্য %s' % bn(i)))
             if i + 1 < nm and rng.random() < 0.5:
                 body.insert(0, 'মডিউল ভিতর = "%s";' % paths[i + 1])
                 body.append('দেখাও ভিতর/দেখ();')
                 body.append('দেখাও ভিতর/মান;')
-            mods.append((paths[i], prog(body)))
+            mods.append(('app/' + paths[i], prog(body)))
         for i in range(nm):
             main_lines.append('মডিউল %s = "%s";' % (aliases[i], paths[i]))
             main_lines += ['দেখাও %s/দেখ();' % aliases[i], 'দেখাও %s/বাড়াও();' % aliases[i], 'দেখাও %s/মান;' % aliases[i], 'দেখাও মান;', 'দেখাও দেখ();', 'দেখাও %s/তালিকা;' % aliases[i]]
-        main_lines += ['দেখাও মান;', 'মান = ৫;', 'দেখাও %s/মান;' % aliases[0], 'দেখাও তালিকা;' if rng.random() < 0.3 else 'দেখাও "শেষ";']
-        cases.append({'src': prog(main_lines), 'files': mods, 'kind': 'modules'})
+        main_lines += ['দেখাও মান;', 'মান = ৫;', 'দেখাও %s/মান;' % aliases[0], 'দেখাও তালিকা;' if rng.random() < 0.3 else 'দেখাও "শেষ";', 'দেখাও _রিড-ফাইল(_ডাইরেক্টরি + "root.txt");']
+        cases.append({'src': prog(main_lines), 'files': mods + datafiles, 'kind': 'modules', 'main': 'app/main.pakhi'})
     return cases
 
 
@@ -662,8 +738,9 @@ def c19_cases(rng, tier):
         g = Gen(rng, prefix='দ্বি', max_depth=3, risky=0.05)
         p2 = g.program(rng.randint(3, 10))
         p2_lines = render(p2).rstrip('\n').split('\n')
-        if rng.random() < 0.3:
-            p2_lines += rng.choice([['থামাও;'], ['আবার;'], ['নাম দ্বিম = [];', 'নাম দ্বিই = ০;', 'লুপ {', '    যদি দ্বিই >= ৬০ {', '        থামাও;', '    }', '    _লিস্ট-পুশ(দ্বিম, [দ্বিই]);', '    দ্বিই = দ্বিই + ১;', '} আবার;',
+        if rng.random() < 0.45:
+            alloc_tail = rng.random() < 0.6
+            p2_lines += rng.choice([['থামাও;'], ['আবার;']]) if not alloc_tail else rng.choice([['নাম দ্বিম = [];', 'নাম দ্বিই = ০;', 'লুপ {', '    যদি দ্বিই >= ৬০ {', '        থামাও;', '    }', '    _লিস্ট-পুশ(দ্বিম, [দ্বিই]);', '    দ্বিই = দ্বিই + ১;', '} আবার;',
                                                                  'নাম দ্বিভুল = ০;', 'দ্বিই = ০;', 'লুপ {', '    যদি দ্বিই >= ৬০ {', '        থামাও;', '    }', '    যদি দ্বিম[দ্বিই][০] != দ্বিই {', '        দ্বিভুল = দ্বিভুল + ১;', '    }', '    দ্বিই = দ্বিই + ১;', '} আবার;', 'দেখাও দ্বিভুল;']])
         cases.append({'p1': prog(p1), 'p2': prog(p2_lines), 'kind': 'compose'})
     return cases
@@ -672,21 +749,49 @@ def c19_cases(rng, tier):
 # ------------------------------------------------------------------------------------------------ C20 fs
 def c20_cases(rng, tier):
     cases = []
-    n = 600 if tier == 'thorough' else 120
-    paths = ['f.txt', 'd/g.txt', 'd/e/h.txt', 'd', 'd/e', 'নথি.txt', 'missing/x.txt', 'f.txt/x']
-    contents = ['', 'এক লাইন', 'দুই\\nলাইন', 'a b  ', 'x' * 3000, 'বাংলা ' * 50]
+    n = 600 if tier == 'thorough' else 150
+    contents = ['', 'এক লাইন', 'দুই\nলাইন', 'a b  ', 'x' * 3000, 'বাংলা ' * 50, 'ছোট', 'y' * 10]
     for _ in range(n):
+        files, dirs = {}, set()
         lines = []
-        for _ in range(rng.randint(1, 10)):
-            p = rng.choice(paths); c = rng.choice(contents)
+        valid = rng.random() < 0.75
+        def parent_ok(p): return '/' not in p or p.rsplit('/', 1)[0] in dirs
+        for _ in range(rng.randint(2, 14)):
+            allp = ['f.txt', 'g.txt', 'd/g.txt', 'd/e/h.txt', 'নথি.txt', 'd/নথি২.txt']
             k = rng.random()
-            if k < 0.25: lines.append('দেখাও _রাইট-ফাইল("%s", "%s");' % (p, c.replace('\\n', '\n')))
-            elif k < 0.45: lines.append('দেখাও _রিড-ফাইল("%s");' % p)
-            elif k < 0.55: lines.append('দেখাও _ডিলিট-ফাইল("%s");' % p)
-            elif k < 0.7: lines.append('দেখাও _নতুন-ডাইরেক্টরি("%s");' % rng.choice(['d', 'd/e', 'n/o/p', 'f.txt', 'd/g.txt/z']))
-            elif k < 0.8: lines.append('দেখাও _লিস্ট-লেন(_রিড-ডাইরেক্টরি("%s"));' % rng.choice(['d', 'd/e', 'n', 'f.txt', 'nope']))
-            elif k < 0.9: lines.append('দেখাও _ফাইল-নাকি-ডাইরেক্টরি("%s");' % p)
-            else: lines.append('দেখাও _ডিলিট-ডাইরেক্টরি("%s");' % rng.choice(['d', 'd/e', 'n', 'nope']))
-        # every operation may fail: each case keeps going by running statements separately
-        cases.append({'stmts': lines, 'kind': 'fs'})
+            if k < 0.3:
+                cand = [p for p in allp if parent_ok(p) and p not in dirs] if valid else allp + ['d', 'missing/x.txt', 'f.txt/x']
+                if not cand: continue
+                p = rng.choice(cand); c = rng.choice(contents)
+                lines.append('দেখাও _রাইট-ফাইল("%s", "%s");' % (p, c))
+                if parent_ok(p) and p not in dirs: files[p] = c
+            elif k < 0.5:
+                cand = list(files) if valid else allp + ['d', 'nope']
+                if not cand: continue
+                lines.append('দেখাও _রিড-ফাইল("%s");' % rng.choice(cand))
+            elif k < 0.6:
+                cand = list(files) if valid else allp + ['d']
+                if not cand: continue
+                p = rng.choice(cand); lines.append('দেখাও _ডিলিট-ফাইল("%s");' % p); files.pop(p, None)
+            elif k < 0.75:
+                p = rng.choice(['d', 'd/e', 'n/o/p', 'd/e']) if valid else rng.choice(['d', 'f.txt', 'd/g.txt/z', 'n/o'])
+                if valid and any(p == f or p.startswith(f + '/') for f in files): continue
+                lines.append('দেখাও _নতুন-ডাইরেক্টরি("%s");' % p)
+                parts = p.split('/')
+                for i in range(1, len(parts) + 1): dirs.add('/'.join(parts[:i]))
+            elif k < 0.85:
+                cand = list(dirs) if valid else ['d', 'f.txt', 'nope']
+                if not cand: continue
+                lines.append('দেখাও _লিস্ট-লেন(_রিড-ডাইরেক্টরি("%s"));' % rng.choice(cand))
+            elif k < 0.93:
+                cand = list(files) + list(dirs) if valid else allp + ['nope']
+                if not cand: continue
+                lines.append('দেখাও _ফাইল-নাকি-ডাইরেক্টরি("%s");' % rng.choice(cand))
+            else:
+                cand = list(dirs) if valid else ['d', 'nope', 'f.txt']
+                if not cand: continue
+                p = rng.choice(cand); lines.append('দেখাও _ডিলিট-ডাইরেক্টরি("%s");' % p)
+                dirs = set(d for d in dirs if d != p and not d.startswith(p + '/'))
+                files = {f: c for f, c in files.items() if not f.startswith(p + '/')}
+        if lines: cases.append({'stmts': lines, 'kind': 'fs-valid' if valid else 'fs-faulty'})
     return cases
